@@ -243,6 +243,28 @@ impl Rewriter {
         }
     }
 
+    /// Cheap orientation for very large term sets: replace the newer node by the older one
+    /// without canonicalising first (substitution chains are resolved lazily by `canon`, whose
+    /// memo is never invalidated). Sound for the same reason as `add_eq`.
+    pub fn add_eq_fast(&mut self, l: H, r: H) {
+        let (from, to) = match (l, r) {
+            (H::N(a), H::N(b)) if a != b => {
+                if a > b { (a, r) } else { (b, l) }
+            }
+            (H::N(a), c @ H::C(_)) | (c @ H::C(_), H::N(a)) => (a, c),
+            _ => return,
+        };
+        if self.subst.contains_key(&from) {
+            return;
+        }
+        if let H::N(t) = to {
+            if self.occurs(from, H::N(t)) {
+                return;
+            }
+        }
+        self.subst.insert(from, to);
+    }
+
     pub fn canon_fm(&mut self, f: &Fm) -> Fm {
         match f {
             Fm::True | Fm::False => f.clone(),
